@@ -381,6 +381,11 @@ impl PublishBuilder {
         mut self,
         payload: Bytes,
     ) -> Result<codec::PublishAck, SendPacketError> {
+        // handle client receive maximum
+        if !self.shared.wait_ready().await {
+            return Err(SendPacketError::Disconnected);
+        }
+
         // packet id
         let idx = self.shared.set_publish_id(&mut self.packet);
 
@@ -398,6 +403,11 @@ impl PublishBuilder {
         tx: pool::Sender<()>,
         chunk: Option<Bytes>,
     ) -> Result<codec::PublishAck, SendPacketError> {
+        // handle client receive maximum
+        if !self.shared.wait_ready().await {
+            return Err(SendPacketError::Disconnected);
+        }
+
         // packet id
         let idx = self.shared.set_publish_id(&mut self.packet);
 
@@ -429,7 +439,7 @@ impl PublishBuilder {
             // handle client receive maximum
             if let Some(rx) = self.shared.wait_readiness() {
                 Either::Left(Either::Left(async move {
-                    if rx.await.is_err() {
+                    if rx.await.is_err() || !self.shared.wait_ready().await {
                         return Err(SendPacketError::Disconnected);
                     }
                     self.send_exactly_once_inner(payload).await
@@ -595,9 +605,7 @@ impl SubscribeBuilder {
             Err(SendPacketError::Disconnected)
         } else {
             // handle client receive maximum
-            if let Some(rx) = shared.wait_readiness()
-                && rx.await.is_err()
-            {
+            if !shared.wait_ready().await {
                 return Err(SendPacketError::Disconnected);
             }
 
@@ -683,9 +691,7 @@ impl UnsubscribeBuilder {
             Err(SendPacketError::Disconnected)
         } else {
             // handle client receive maximum
-            if let Some(rx) = shared.wait_readiness()
-                && rx.await.is_err()
-            {
+            if !shared.wait_ready().await {
                 return Err(SendPacketError::Disconnected);
             }
             // allocate packet id
